@@ -135,7 +135,8 @@ class C07(PropCheck):
             'python: positive prior density of every particle (log domain), finite non-negative weights, first weights 1, later weights '
             '= prior / mixture of the previous population with its weights and stored covariance, covariance = diag(2 x weighted sample '
             'variance), all purely relative; every simulated draw of every round has positive prior density; selected quantile '
-            'thresholds recomputed; non-trivial = at least two populations whose later weights are not all equal; distinct by '
+            'thresholds recomputed; a run that scipy refuses (LinAlgError) or in which GMDistribution.rvs reports 100 trials without a valid proposal is '
+            'counted and skipped; non-trivial = at least two populations whose later weights are not all equal; distinct by '
             'configuration')
     trusted = ('oracle tables for the Coq weight statement computed by the harness from its own formulas: log prior density (uniform, '
                'normal, exponential conditionals; zero as soon as a parent lies outside its support) and normal component densities in '
@@ -338,7 +339,11 @@ class C07(PropCheck):
                     s2 = np.array([float(sum(wq[i] * (Pq[i][k] - xbarq[k]) ** 2 for i in range(len(wq))) / denq) for k in range(dimq)])
                     condq = float(V1q / denq)
                     cov_expect = 2 * np.diag(s2)
-                    if not (cov.shape == cov_expect.shape and np.allclose(cov, cov_expect, rtol=1e-9 + 64 * 2.3e-16 * condq, atol=1e-300)):
+                    if 64 * 2.3e-16 * condq >= 1:
+                        # the allowance reaches 100 %: the binary64 denominator cancels completely (weights (1, 1e-22)), the
+                        # code sees nan/inf and takes its documented unit-covariance fallback - not estimable, like denq == 0
+                        self.bump('cov_not_estimable_in_binary64')
+                    elif not (cov.shape == cov_expect.shape and np.allclose(cov, cov_expect, rtol=1e-9 + 64 * 2.3e-16 * condq, atol=1e-300)):
                         problems.append('population %d cov %r is not twice the weighted sample variance %r' % (r_i, cov.tolist(), cov_expect.tolist()))
             cov_good = bool(cov.shape == (P.shape[1], P.shape[1]) and np.all(np.isfinite(cov)) and np.all(np.diag(cov) > 0))
             if cov_good:
